@@ -34,9 +34,12 @@ bool mode_supports_window(int mode);
 /// apply a configuration through the public setters (not initialised)
 void apply_cfg(bxdecay0::decay0_generator & g, const GenCfg & c);
 /// same, but the post-generation operation is the caller-owned object `op` (possibly shared between generators)
-void apply_cfg(bxdecay0::decay0_generator & g, const GenCfg & c, const std::shared_ptr<bxdecay0::i_event_op> & op);
-std::shared_ptr<bxdecay0::i_event_op> make_mdl(int preset);
-int mdl_presets();
+/// `own(p)` returns the caller-owned object for single preset p, or null (then a new object is made)
+void apply_cfg(bxdecay0::decay0_generator & g, const GenCfg & c, const std::function<std::shared_ptr<bxdecay0::i_event_op>(int)> & own);
+std::shared_ptr<bxdecay0::i_event_op> make_mdl(int preset); // single presets 1..mdl_single_presets()
+int mdl_single_presets();
+int mdl_presets();                      // single presets, then pairs of operations registered one after the other
+std::vector<int> preset_parts(int preset); // the single presets a (possibly composite) preset registers, in order
 
 /// field-by-field record of an event (never memcmp: particle has padding bytes)
 struct PartRec { int code; u64 t, px, py, pz; };
